@@ -69,8 +69,16 @@ def child_run(folder, kind, mode, k, err, out_path):
         st, _, _ = app.request(method, path, body, login=login, **env)
         interposer.inject(0, 0, 0)
         interposer.stop()
+        same = None
+        if mode == 2:
+            # the process that met the I/O error goes on serving: its lock bookkeeping, caches and file handles must be in order
+            # (reads only, so that the state the parent examines is the one the faulted request left)
+            user = login.split(":")[0]
+            same = [app.request("PROPFIND", "/%s/" % user, HTTP_DEPTH="1", login=login)[0],
+                    app.request("GET", "/", login=login)[0],
+                    app.request("PROPFIND", "/%s/" % user, HTTP_DEPTH="0", login=login)[0]]
         with open(out_path, "w") as f:
-            json.dump({"status": st}, f)
+            json.dump({"status": st, "same_process": same}, f)
     except BaseException as e:  # noqa
         try:
             with open(out_path, "w") as f:
@@ -210,9 +218,11 @@ def one_kind(ctx, name, kind, shape, errnos, template_root):
             _, wstatus = os.waitpid(pid, 0)
             crashed = os.WIFEXITED(wstatus) and os.WEXITSTATUS(wstatus) == 137
             status = None
+            same = None
             if os.path.exists(out):
                 try:
-                    status = json.load(open(out)).get("status")
+                    rep = json.load(open(out))
+                    status, same = rep.get("status"), rep.get("same_process")
                 except Exception:
                     status = None
             case = dict(base_case, mode="crash" if mode == 1 else "fault:%s" % errno.errorcode[err], at_mutating_call=k, of=muts)
@@ -223,6 +233,9 @@ def one_kind(ctx, name, kind, shape, errnos, template_root):
                     ctx.disagree("crash point %d not reached (request made fewer mutating calls than the reference run)" % k, case, "no crash", "crash")
             ctx.case("%s|%s" % (name, "crash" if mode == 1 else errno.errorcode[err]), sample=case, key=case,
                      nontrivial=(k <= muts))
+            if same is not None and any(x >= 500 for x in same):
+                ctx.violation("after the I/O error (request answered %s) the same server process no longer serves reads: PROPFIND Depth 1 / GET / "
+                              "PROPFIND Depth 0 answered %s - the storage is left locked or wedged" % (status, same), case)
             examine(ctx, d, before, after, predicted, case, status=(None if mode == 1 else status))
             shutil.rmtree(d, ignore_errors=True)
             for f in (out, out + ".log"):
